@@ -110,6 +110,15 @@ for _k in ('C01', 'C02', 'C03', 'C04', 'C05', 'C07', 'C10', 'C11', 'C13', 'C14',
 PROPS['C09']['tie_defs'] = PROPS['C09'].get('tie_defs', []) + [r'^S\.']
 PROPS['C09']['extra_modules'] = PROPS['C09'].get('extra_modules', []) + ['Daac.Props.TieSer']
 PROPS['C09']['trusted_extra'] = ['the Rust-to-Lean translator for the serialisation code tools/ser2lean.py and its prelude lean/Daac/Gen/PreludeSer.lean (meaning of to_le_bytes / from_le_bytes / slicing / NonZeroU32::new; a value type is a `Ser V` record); the equalities generated = model are theorems (Daac/Proofs/TieS.lean, Daac/Props/TieSer.lean)']
+# accessors of State / Output and the U24nU8 packing (generated A.*; tools/acc2lean.py): what the search-side and
+# layout translation units read through the model's fields
+for _k in sorted(set(_TIE) | {'C10', 'C11', 'C14', 'C15'}):
+    PROPS[_k]['tie_defs'] = PROPS[_k].get('tie_defs', []) + [r'^A\.']
+    PROPS[_k]['extra_modules'] = PROPS[_k].get('extra_modules', []) + ['Daac.Props.TieAcc']
+# pattern insertion: NfaBuilder::{new, add, is_registered, child_id} (generated N.*; tools/nfa2lean.py), refinement to the model trie
+for _k in ('C04', 'C10', 'C15'):
+    PROPS[_k]['tie_defs'] = PROPS[_k].get('tie_defs', []) + [r'^N\.']
+    PROPS[_k]['extra_modules'] = PROPS[_k].get('extra_modules', []) + ['Daac.Props.TieNfa']
 for _k, (_s, _r) in _NOTES.items():
     PROPS[_k]['statement'] = _s
     PROPS[_k]['residue'] = _r
